@@ -243,7 +243,8 @@ def explore(
         VerificationStatus,
     )
     from crosshair.tracers import COMPOSITE_TRACER, NoTracing, ResumedTracing
-    from crosshair.util import IgnoreAttempt, UnexploredPath
+    from crosshair.util import (CrossHairInternal, IgnoreAttempt,
+                                UnexploredPath)
     from crosshair.copyext import CopyMode, deepcopyext
     from time import process_time
 
@@ -354,7 +355,7 @@ def explore(
                 res['paths'] += 1
                 res['skipped'] += 1
                 status = None
-            except UnexploredPath as exc:
+            except (UnexploredPath, CrossHairInternal) as exc:
                 res['paths'] += 1
                 res['unknown'] += 1
                 k = type(exc).__name__
